@@ -205,4 +205,14 @@ def train(exp_dir, grads, batches, num_iterations, k=1, clip=0.0, lr=0.5, opt="s
         E.ConcatDatasetBatchSampler = old
         TinyEngine.kill_at = None
         TinyEngine.seen = None
-    return {"w": float(model.w.item()), "last_epoch": int(scheduler.last_epoch), "exited": exited, "steps": lrs, "validations": TinyEngine.validations, "w_extra": float(extra.w.item()) if extra_model else None}
+    # what the engine handed to its Checkpointer, and what the newest checkpoint file holds
+    stateful, stored = [], None
+    try:
+        ck = eng.checkpointer
+        stateful = sorted(k_ for k_, o_ in ck.checkpointables.items() if not (k_.startswith("__") and k_.endswith("__")) and callable(getattr(o_, "state_dict", None)))
+        files = sorted(pathlib.Path(exp_dir).glob("model_*.pt"), key=lambda p_: int(p_.stem.split("_")[1]))
+        if files:
+            stored = sorted(torch.load(files[-1], map_location="cpu", weights_only=False).keys())
+    except Exception:  # noqa
+        pass
+    return {"w": float(model.w.item()), "last_epoch": int(scheduler.last_epoch), "exited": exited, "steps": lrs, "validations": TinyEngine.validations, "w_extra": float(extra.w.item()) if extra_model else None, "stateful": stateful, "stored": stored}
